@@ -163,6 +163,11 @@ def make_plan(rng, name, n, max_size=200, gates=GATES):
         size = rng.choice([0, 1, 5, 40, rng.randint(0, max_size)])
         body = ("%s:%d:" % (name, i)).encode() + rng.randbytes(size)
         plan.append((body, rng.choice(gates)))
+    if n >= 3 and rng.random() < 0.2:
+        # the same bytes twice (or three times) in a row - a keep-alive, "ok", "ok" - are that many records
+        i = rng.randrange(n - 1)
+        for j in range(i + 1, min(n, i + rng.choice([2, 2, 3]))):
+            plan[j] = (plan[i][0], plan[j][1])
     return _finish_plan(rng, name, n, plan)
 
 
